@@ -11,7 +11,8 @@
    is a function of layers and contents (C04), one path per state suffices:
    this is one implementation test per transition of the state graph.      *)
 EXTENDS MastSteps, Json
-CONSTANTS NK, BF, MaxLayer
+CONSTANTS NK, BF, MaxLayer,
+          OnlyTall   \* TRUE: print only the transitions that start or end at height >= 2 (every one is still checked)
 Keys == 1..NK
 VARIABLES layer, present, op, key
 vars == <<layer, present, op, key>>
@@ -32,6 +33,6 @@ Model == [k \in (IF op = "del" THEN present \ {key} ELSE present \cup {key}) |->
 \* the successor computed by the transcription is the canonical tree of the new contents at the rule's height
 StepOK == /\ After.height = RuleHeight(DOMAIN Model, layer, BF)
           /\ Strip(After.root) = Canon(SortedPairs(Model), layer, After.height)
-Emit == PrintT(<<"BEH", ToJson([bf |-> BF, layers |-> layer, present |-> SetToSortSeq(present, <), op |-> op, k |-> key,
+Emit == (OnlyTall /\ Before.height < 2 /\ After.height < 2) \/ PrintT(<<"BEH", ToJson([bf |-> BF, layers |-> layer, present |-> SetToSortSeq(present, <), op |-> op, k |-> key,
                                  height |-> After.height, prevheight |-> Before.height])>>)
 =============================================================================
